@@ -5,6 +5,7 @@ package c05
 import (
 	"bufio"
 	"bytes"
+	"context"
 	"encoding/binary"
 	"fmt"
 	"io"
@@ -15,7 +16,9 @@ import (
 
 	"verifharness/kit"
 
+	"github.com/influxdata/flux"
 	"github.com/influxdata/kapacitor/edge"
+	"github.com/influxdata/kapacitor/influxdb"
 	"github.com/influxdata/kapacitor/keyvalue"
 	"github.com/influxdata/kapacitor/models"
 	"github.com/influxdata/kapacitor/udf"
@@ -230,3 +233,24 @@ func TestReplayUDF(t *testing.T) {
 	r := kit.NewRec("C05", "UDF", ruleUDF, assumptionsUDF...)
 	kit.Replay(t, r, runUDF)
 }
+
+// nullInflux is an InfluxDB service whose client accepts and discards everything.
+type nullInflux struct{}
+
+func (nullInflux) NewNamedClient(name string) (influxdb.Client, error) { return nullClient{}, nil }
+
+type nullClient struct{}
+
+func (nullClient) Ping(ctx context.Context) (time.Duration, string, error) { return 0, "", nil }
+func (nullClient) Write(bp influxdb.BatchPoints) error                     { return nil }
+func (nullClient) WriteV2(w influxdb.FluxWrite) error                      { return nil }
+func (nullClient) Query(q influxdb.Query) (*influxdb.Response, error) {
+	return &influxdb.Response{}, nil
+}
+func (nullClient) QueryFlux(q influxdb.FluxQuery) (flux.ResultIterator, error) {
+	return nil, fmt.Errorf("no flux")
+}
+func (nullClient) QueryFluxResponse(q influxdb.FluxQuery) (*influxdb.Response, error) {
+	return &influxdb.Response{}, nil
+}
+func (nullClient) CreateBucketV2(bucket string, org string, orgID string) error { return nil }
